@@ -1,6 +1,7 @@
 package numx
 
 import (
+	"math/big"
 	"sync"
 	"time"
 
@@ -69,4 +70,42 @@ func Prescribe[T any](c *lib.Ctx, name, dir, module string, cases []T, par int, 
 		}
 	}
 	return out, nil
+}
+
+// NearCase is one conversion judged by spec/Arith/JudgeNearest.tla: the exact value
+// (-1)^neg * m * 10^sc (kind "dec") or (-1)^neg * m/d (kind "rat") and the double the real code
+// produced for it (16 hex digits).
+type NearCase struct {
+	Kind string `json:"kind"`
+	Neg  bool   `json:"neg"`
+	M    []int  `json:"m"`
+	D    []int  `json:"d"`
+	Sc   int    `json:"sc"`
+	Bits []int  `json:"bits"`
+}
+
+// Limbs is the BigNat form of |b|.
+func Limbs(b *big.Int) []int {
+	m := []int{}
+	a := new(big.Int).Abs(b)
+	base := big.NewInt(limbBase)
+	r := new(big.Int)
+	for a.Sign() > 0 {
+		a.QuoRem(a, base, r)
+		m = append(m, int(r.Int64()))
+	}
+	return m
+}
+
+// Cost estimates the size of the numbers TLC has to multiply for this case (in limbs).
+func (n NearCase) Cost() int {
+	sc := n.Sc
+	if sc < 0 {
+		sc = -sc
+	}
+	e := int((FromHex(n.Bits)>>52)&0x7ff) - 1075
+	if e < 0 {
+		e = -e
+	}
+	return len(n.M) + len(n.D) + sc/4 + e/13
 }
